@@ -7,9 +7,15 @@ def loc(body, sp):
     return body.loc(sp)
 
 
-def run_linearity(body, spec, r_drop, r_clone, r_lossy, min_recv=0, min_send=0, min_store=0, what=None):
-    """returns the OwnResult; adds obligations/violations to the three rules"""
-    res = own.analyse(body, spec)
+def run_linearity(body, spec, r_drop, r_clone, r_lossy, min_recv=0, min_send=0, min_store=0, what=None, F=None, _seen=None):
+    """returns the OwnResult; adds obligations/violations to the three rules.  With F, calls of private forwarding helpers
+    (own.send_faithful) count as sends and the helpers' bodies are held to the same rules."""
+    res = own.analyse(body, spec, F=F)
+    _seen = _seen if _seen is not None else {body.path}
+    for H in res.helpers:
+        if H.path not in _seen:
+            _seen.add(H.path)
+            run_linearity(H, own.OwnSpec(), r_drop, r_clone, r_lossy, F=F, _seen=_seen)
     fn = body.path
     for r in (r_drop, r_clone, r_lossy):
         r.fn(fn)
